@@ -6,17 +6,23 @@
 // empty-valued =/!= test absence/presence; for number and date properties exactly one of <,=,>
 // holds, <=/>= are the unions, != negates =; dates are compared by calendar day in the
 // environment's zone (reference: y-m-d of the instant in that zone).
+//
+// The world has text fields whose key is also an attribute name or a URN scheme (so that conditions on
+// both meet in one AND/OR, part D) and the contacts include typed fields whose stored value has no
+// typed part (parts A, B, C); part F reaches the evaluator through Contact.ReevaluateQueryBasedGroups.
 package c15
 
 import (
 	"encoding/json"
 	"fmt"
+	"runtime/debug"
 	"sort"
 	"strings"
 	"time"
 
 	"github.com/nyaruka/gocommon/dates"
 	"github.com/nyaruka/gocommon/urns"
+	"github.com/nyaruka/goflow/flows"
 	"verif/mc"
 )
 
@@ -29,6 +35,8 @@ type group struct {
 // ---- part A: single conditions ------------------------------------------------------------------
 
 var operatorsAsWritten = []string{"=", "!=", "~", ">", "<", ">=", "<=", "has", "is", "HAS"}
+
+var sameKeyedFields = []string{"name", "language", "twitter", "tickets"}
 
 func propertiesAsWritten() []string {
 	props := []string{"uuid", "id", "name", "status", "language", "urn", "group", "flow", "history", "tickets", "created_on", "last_seen_on", "NAME"}
@@ -43,6 +51,11 @@ func propertiesAsWritten() []string {
 	for _, f := range []string{"gender", "age", "joined", "state", "district", "ward"} {
 		props = append(props, f, "fields."+f)
 	}
+	// fields whose key is also an attribute name or a URN scheme: written bare they are the attribute
+	// or scheme (listed above), the field is reached with its prefix only
+	for _, f := range sameKeyedFields {
+		props = append(props, "fields."+f)
+	}
 	return append(props, "nope", "fields.nope", "urns.nope", "attrs.name")
 }
 
@@ -51,7 +64,7 @@ func condValues(df string) []string {
 	d2 := Day{2020, 1, 1}
 	vals := []string{
 		`""`, `bob`, `"Ann Lee"`, `an`, `a`, `F`, `active`, `blocked`, `eng`, `Testers`, `"no such group"`, `Registration`,
-		`+12065551212`, `2065`, `20`, `ann`, `"Kigali City"`, `Gasabo`, `Ndera`, `"x y"`,
+		`+12065551212`, `2065`, `20`, `ann`, `"Kigali City"`, `Gasabo`, `Ndera`, `"x y"`, `fra`,
 		`-1`, `0`, `0.5`, `1`, `1000000000000000000`, `1e3`, `+1`, `.5`, `1.`, `1,5`,
 		`"` + d1.format(df) + `"`, `"` + d2.format(df) + `"`, `"` + d2.format(df) + ` 12:00"`, `2020-01-01T12:00:00Z`, `13-13-2025`, `"` + d1.format(df) + ` 25:99"`,
 	}
@@ -66,12 +79,14 @@ func instantUTC(y int, m time.Month, d, hh, mm int) string {
 }
 
 // genericProfiles: the empty contact, the full contact, and contacts that differ from the full one in
-// one respect (missing value, several URNs of one scheme, other status...).
+// one respect (missing value, several URNs of one scheme, other status...), among them contacts whose
+// number, datetime and location fields hold stored values without the typed part of the field's type.
 func genericProfiles() []Profile {
 	full := Profile{
 		Name: "Ann Lee", Lang: "eng", URNs: []string{"tel:+12065551212"}, Gender: "F", Age: "1", Joined: instantUTC(2025, 6, 15, 12, 0),
 		State: "Rwanda > Kigali City", District: "Rwanda > Kigali City > Gasabo", Ward: "Rwanda > Kigali City > Gasabo > Ndera",
 		CreatedOn: defaultCreatedOn, LastSeen: instantUTC(2025, 6, 15, 12, 0), Ticket: true, InGroup: true,
+		FName: "bob", FLang: "fra", FTwitter: "ann", FTickets: "1",
 	}
 	ps := []Profile{{CreatedOn: defaultCreatedOn}, full}
 	mod := func(f func(p *Profile)) {
@@ -100,17 +115,53 @@ func genericProfiles() []Profile {
 	mod(func(p *Profile) { p.InGroup = false })
 	mod(func(p *Profile) { p.Status = "blocked" })
 	mod(func(p *Profile) { p.CreatedOn = instantUTC(2025, 6, 15, 0, 0) })
+	// the same-keyed fields unset while the attributes are set (the profiles above without name,
+	// language or URNs are the converse)
+	mod(func(p *Profile) { p.FName, p.FLang, p.FTwitter, p.FTickets = "", "", "", "" })
+	// every typed field holds a text only (one that does not read as the field's type)
+	mod(func(p *Profile) { *p = oddProfile(*p, oddTextOnly) })
+	// ... a text that reads as the field's type, still without the typed part (stored before the field got its type)
+	mod(func(p *Profile) { *p = oddProfile(*p, oddTextOfTheType) })
+	// ... a text with the typed part of another type (FieldValues.Parse fills in every type the text reads as)
+	mod(func(p *Profile) { *p = oddProfile(*p, oddForeignPart) })
 	return ps
 }
 
-func partA(tier string) []group {
+// the alphabet of odd stored values per typed field
+var (
+	oddTextOnly = map[string]Odd{
+		"age": {Text: "old"}, "joined": {Text: "a while ago"}, "state": {Text: "Kigali City"}, "district": {Text: "Gasabo"}, "ward": {Text: "Ndera"},
+	}
+	oddTextOfTheType = map[string]Odd{
+		"age": {Text: "1"}, "joined": {Text: "2025-06-15T12:00:00Z"}, "state": {Text: "Rwanda > Kigali City"},
+		"district": {Text: "Rwanda > Kigali City > Gasabo"}, "ward": {Text: "Rwanda > Kigali City > Gasabo > Ndera"},
+	}
+	oddForeignPart = map[string]Odd{
+		"age": {Text: "2025-06-15", Datetime: "2025-06-15T00:00:00Z"}, "joined": {Text: "20", Number: "20"}, "state": {Text: "1", Number: "1"},
+		"district": {Text: "Kigali City", State: "Rwanda > Kigali City"}, "ward": {Text: "Kigali City", State: "Rwanda > Kigali City"},
+	}
+	oddAlphabets = []map[string]Odd{oddTextOnly, oddTextOfTheType, oddForeignPart}
+)
+
+func oddProfile(p Profile, odd map[string]Odd) Profile {
+	for _, k := range typedFieldKeys {
+		p = p.withOdd(k, odd[k])
+	}
+	return p
+}
+
+func envsOfPartA() []EnvSpec {
 	var envsA []EnvSpec
 	for _, z := range []string{"UTC", "America/New_York"} {
 		for _, df := range dateFormats {
 			envsA = append(envsA, EnvSpec{TZ: z, DF: df})
 		}
 	}
-	envsA = append(envsA, EnvSpec{TZ: "UTC", DF: "YYYY-MM-DD", Redact: true})
+	return append(envsA, EnvSpec{TZ: "UTC", DF: "YYYY-MM-DD", Redact: true})
+}
+
+func partA(tier string) []group {
+	envsA := envsOfPartA()
 	profiles := genericProfiles()
 	var gs []group
 	for _, es := range envsA {
@@ -150,6 +201,10 @@ func partB(tier string) []group {
 				} else {
 					for _, a := range numberContactValues {
 						profiles = append(profiles, Profile{CreatedOn: defaultCreatedOn, Name: "Ann", Age: a})
+					}
+					// stored values without a number part: no value for a number query
+					for _, odd := range oddAlphabets {
+						profiles = append(profiles, Profile{CreatedOn: defaultCreatedOn, Name: "Ann"}.withOdd("age", odd["age"]))
 					}
 				}
 				for _, v := range numberQueryValues {
@@ -288,6 +343,13 @@ func partC(tier string) []group {
 								dd := d
 								emit(&Case{Kind: "date", Env: es, Contact: Profile{Name: "Ann", CreatedOn: defaultCreatedOn}, Prop: prop, Value: lit.text, Day: &dd, QKind: lit.kind})
 							}
+							if strings.Contains(prop, "joined") && full {
+								// stored values without a datetime part: no value for a date query
+								for _, odd := range oddAlphabets {
+									dd := d
+									emit(&Case{Kind: "date", Env: es, Contact: Profile{Name: "Ann", CreatedOn: defaultCreatedOn}.withOdd("joined", odd["joined"]), Prop: prop, Value: lit.text, Day: &dd, QKind: lit.kind})
+								}
+							}
 						}
 					}
 				}})
@@ -302,6 +364,9 @@ func partC(tier string) []group {
 type atomSet struct {
 	env   EnvSpec
 	atoms []Atom
+	// sameKeyed: the set consists of pairs of conditions on an attribute or URN scheme and on a field of
+	// the same key; thoroughOnly: the set is left to the thorough tier
+	sameKeyed, thoroughOnly bool
 	// on[i] / off[i] modify a profile so that atom i is true / false
 	on, off []func(p *Profile)
 }
@@ -350,6 +415,77 @@ func atomSets() []atomSet {
 				func(p *Profile) { p.CreatedOn = instantUTC(2025, 6, 17, 12, 0) },
 			},
 		},
+		// an attribute and a field called language, a URN scheme and a field called twitter: same
+		// operator, same value, independent truth values
+		{
+			sameKeyed: true,
+			env:       EnvSpec{TZ: "UTC", DF: "YYYY-MM-DD"},
+			atoms: []Atom{
+				{"attr", "language", "=", "fra"},
+				{"field", "language", "=", "fra"},
+				{"urn", "twitter", "=", "bob"},
+				{"field", "twitter", "=", "bob"},
+			},
+			on: []func(p *Profile){
+				func(p *Profile) { p.Lang = "fra" },
+				func(p *Profile) { p.FLang = "fra" },
+				func(p *Profile) { p.URNs = []string{"tel:+19995550000", "twitter:bob"} },
+				func(p *Profile) { p.FTwitter = "bob" },
+			},
+			off: []func(p *Profile){
+				func(p *Profile) { p.Lang = "eng" },
+				func(p *Profile) { p.FLang = "eng" },
+				func(p *Profile) { p.URNs = []string{"tel:+19995550000", "twitter:ann"} },
+				func(p *Profile) { p.FTwitter = "ann" },
+			},
+		},
+		// the same with empty-valued conditions (presence / absence)
+		{
+			sameKeyed: true,
+			env:       EnvSpec{TZ: "America/New_York", DF: "DD-MM-YYYY"},
+			atoms: []Atom{
+				{"attr", "name", "!=", ""},
+				{"field", "name", "!=", ""},
+				{"urn", "twitter", "=", ""},
+				{"field", "twitter", "=", ""},
+			},
+			on: []func(p *Profile){
+				func(p *Profile) { p.Name = "Ann Lee" },
+				func(p *Profile) { p.FName = "bob" },
+				func(p *Profile) { p.URNs = []string{"tel:+19995550000"} },
+				func(p *Profile) { p.FTwitter = "" },
+			},
+			off: []func(p *Profile){
+				func(p *Profile) { p.Name = "" },
+				func(p *Profile) { p.FName = "" },
+				func(p *Profile) { p.URNs = []string{"tel:+19995550000", "twitter:ann"} },
+				func(p *Profile) { p.FTwitter = "ann" },
+			},
+		},
+		// an attribute and a field of the same key but of different value types (number / text), and
+		// the != operator
+		{
+			sameKeyed: true, thoroughOnly: true,
+			env: EnvSpec{TZ: "Asia/Kathmandu", DF: "MM-DD-YYYY"},
+			atoms: []Atom{
+				{"attr", "tickets", "=", "1"},
+				{"field", "tickets", "=", "1"},
+				{"attr", "name", "!=", "bob"},
+				{"field", "name", "!=", "bob"},
+			},
+			on: []func(p *Profile){
+				func(p *Profile) { p.Ticket = true },
+				func(p *Profile) { p.FTickets = "1" },
+				func(p *Profile) { p.Name = "Ann Lee" },
+				func(p *Profile) { p.FName = "Ann Lee" },
+			},
+			off: []func(p *Profile){
+				func(p *Profile) { p.Ticket = false },
+				func(p *Profile) { p.FTickets = "2" },
+				func(p *Profile) { p.Name = "Bob" },
+				func(p *Profile) { p.FName = "Bob" },
+			},
+		},
 	}
 }
 
@@ -370,9 +506,9 @@ func (as atomSet) profiles() []Profile {
 }
 
 // boolTrees: every tree of depth <= 2 over 4 atoms with root arity 2 (children: an atom or a
-// two-atom combination, 36 options) or root arity 3 (children: an atom or a two-atom combination of
-// distinct atoms in index order, 16 options), plus the 4 single atoms.
-func boolTrees() []*Tree {
+// two-atom combination, 36 options) or - unless binaryOnly - root arity 3 (children: an atom or a
+// two-atom combination of distinct atoms in index order, 16 options), plus the 4 single atoms.
+func boolTrees(binaryOnly bool) []*Tree {
 	var atoms, wide, narrow []*Tree
 	for i := 0; i < 4; i++ {
 		atoms = append(atoms, leaf(i))
@@ -399,7 +535,9 @@ func boolTrees() []*Tree {
 		for _, a := range narrow {
 			for _, b := range narrow {
 				for _, c := range narrow {
-					ts = append(ts, comb(op, a, b, c))
+					if !binaryOnly {
+						ts = append(ts, comb(op, a, b, c))
+					}
 				}
 			}
 		}
@@ -420,8 +558,8 @@ func hasAnd(t *Tree) bool {
 }
 
 // simplifyTrees: constructed trees including the non-canonical ones the parser never produces
-// unsimplified: single-child combinations and same-operator nesting, depth <= 3.
-func simplifyTrees() []*Tree {
+// unsimplified: single-child combinations and same-operator nesting, depth <= maxDepth (2 or 3).
+func simplifyTrees(maxDepth int) []*Tree {
 	var t1 []*Tree
 	for i := 0; i < 4; i++ {
 		t1 = append(t1, leaf(i))
@@ -444,6 +582,9 @@ func simplifyTrees() []*Tree {
 			}
 		}
 	}
+	if maxDepth < 3 {
+		return t2
+	}
 	t3 := append([]*Tree{}, t2...)
 	for _, op := range []string{"and", "or"} {
 		for _, a := range t2 {
@@ -455,16 +596,35 @@ func simplifyTrees() []*Tree {
 	return t3
 }
 
+const treeChunks = 16
+
 func partD(tier string) []group {
-	var gs []group
-	trees := boolTrees()
-	stree := simplifyTrees()
+	// (the bool groups are the heavier ones: listing them before the simplify groups instead of
+	// alternating spreads both kinds over all workers)
+	var gs, sgs []group
+	thorough := tier == "thorough"
 	for si, as := range atomSets() {
 		as := as
-		for pi, p := range as.profiles() {
-			p := p
-			gs = append(gs, group{fmt.Sprintf("bool/%d/%d", si, pi), func(emit func(*Case)) {
-				for _, t := range trees {
+		if as.thoroughOnly && !thorough {
+			continue
+		}
+		// the sets of same-keyed conditions: quick takes the trees with a binary root and the
+		// constructed trees of depth <= 2, thorough the same families as for the other sets
+		reduced := as.sameKeyed && !thorough
+		trees, stree := boolTrees(reduced), simplifyTrees(map[bool]int{true: 2, false: 3}[reduced])
+		// written bare (no urns. / fields. prefix where the key alone names the property): for the
+		// same-keyed sets in both tiers, for the other sets in the thorough tier
+		bare := as.sameKeyed || thorough
+		// a group is one sixteenth of the trees (by index) with all 16 contacts, so that each query text
+		// is met - and parsed - by one worker only
+		profiles := as.profiles()
+		for ch := 0; ch < treeChunks; ch++ {
+			ch := ch
+			gs = append(gs, group{fmt.Sprintf("bool/%d/trees-%d-mod-%d", si, ch, treeChunks), func(emit func(*Case)) {
+				for ti, t := range trees {
+					if ti%treeChunks != ch {
+						continue
+					}
 					styles := []string{"upper", "lower"}
 					if hasAnd(t) {
 						styles = append(styles, "implicit")
@@ -472,17 +632,43 @@ func partD(tier string) []group {
 					if t.Op == "" {
 						styles = styles[:1]
 					}
-					for _, st := range styles {
-						emit(&Case{Kind: "bool", Env: as.env, Contact: p, Atoms: as.atoms, Tree: t, Style: st})
+					for _, p := range profiles {
+						for _, st := range styles {
+							emit(&Case{Kind: "bool", Env: as.env, Contact: p, Atoms: as.atoms, Tree: t, Style: st})
+						}
+						if bare {
+							emit(&Case{Kind: "bool", Env: as.env, Contact: p, Atoms: as.atoms, Tree: t, Style: "upper", Spelling: "bare"})
+						}
 					}
 				}
 			}})
-			gs = append(gs, group{fmt.Sprintf("simplify/%d/%d", si, pi), func(emit func(*Case)) {
-				for _, t := range stree {
-					emit(&Case{Kind: "simplify", Env: as.env, Contact: p, Atoms: as.atoms, Tree: t})
+			sgs = append(sgs, group{fmt.Sprintf("simplify/%d/trees-%d-mod-%d", si, ch, treeChunks), func(emit func(*Case)) {
+				for ti, t := range stree {
+					if ti%treeChunks != ch {
+						continue
+					}
+					for _, p := range profiles {
+						emit(&Case{Kind: "simplify", Env: as.env, Contact: p, Atoms: as.atoms, Tree: t})
+					}
 				}
 			}})
 		}
+	}
+	return append(gs, sgs...)
+}
+
+// ---- part F: group re-evaluation ---------------------------------------------------------------
+
+// partF: Contact.ReevaluateQueryBasedGroups over the contacts and environments of part A.
+func partF(tier string) []group {
+	var gs []group
+	for _, es := range envsOfPartA() {
+		es := es
+		gs = append(gs, group{"regroup/" + es.String(), func(emit func(*Case)) {
+			for _, p := range genericProfiles() {
+				emit(&Case{Kind: "regroup", Env: es, Contact: p})
+			}
+		}})
 	}
 	return gs
 }
@@ -508,6 +694,7 @@ func allGroups(tier string) []group {
 	gs = append(gs, partB(tier)...)
 	gs = append(gs, partC(tier)...)
 	gs = append(gs, partD(tier)...)
+	gs = append(gs, partF(tier)...)
 	return gs
 }
 
@@ -533,10 +720,16 @@ func record(c *mc.Ctx, cs *Case, o *obs, ps []Problem) {
 }
 
 func run(c *mc.Ctx) {
+	// the caches of parsed queries and contacts are long-lived and large; collecting less often
+	// saves about a quarter of the CPU time for some tens of MB per worker
+	debug.SetGCPercent(400)
 	dates.SetNowFunc(dates.NewFixedNow(time.Date(2025, 5, 4, 12, 30, 45, 0, time.UTC)))
 	if _, err := sessionAssets(); err != nil {
 		c.Violation("harness:assets", err.Error(), nil)
 		return
+	}
+	for _, f := range oddValueProvenance() {
+		c.Fact(f)
 	}
 	gs := allGroups(c.Tier)
 	// VERIF_SEED only rotates the order in which groups are visited
@@ -568,7 +761,7 @@ func run(c *mc.Ctx) {
 			continue
 		}
 		if c.Expired() {
-			c.Cap(fmt.Sprintf("time budget reached after %d of this worker's groups; groups (part/environment/property or day or contact) before the cap were enumerated completely", done))
+			c.Cap(fmt.Sprintf("time budget reached after %d of this worker's groups; groups (part/environment/property or day or share of the trees) before the cap were enumerated completely", done))
 			break
 		}
 		sampled := false
@@ -587,6 +780,48 @@ func run(c *mc.Ctx) {
 		done++
 		c.Inc("groups")
 	}
+}
+
+// oddValueProvenance asks the real FieldValues.Parse (what a set_contact_field action stores) for the
+// values it makes of the odd texts of the alphabet, and reports as facts which of the odd stored
+// values of the alphabet it reproduces exactly: the vacuity guard demands that text-only and
+// foreign-part values of number and datetime fields are among them (they are not artefacts of
+// hand-written contact JSON).
+func oddValueProvenance() []string {
+	sa, err := sessionAssets()
+	if err != nil {
+		return nil
+	}
+	env := EnvSpec{TZ: "UTC", DF: "YYYY-MM-DD"}.build()
+	var facts []string
+	for name, alphabet := range map[string]map[string]Odd{"text-only": oddTextOnly, "foreign-part": oddForeignPart} {
+		for _, key := range typedFieldKeys {
+			odd := alphabet[key]
+			field := sa.Fields().Get(key)
+			v := flows.FieldValues{}.Parse(env, sa.Fields(), field, odd.Text)
+			if v == nil || v.Text.Native() != odd.Text || (v.Number != nil) != (odd.Number != "") || (v.Datetime != nil) != (odd.Datetime != "") {
+				continue
+			}
+			if v.Number != nil && v.Number.Native().String() != odd.Number {
+				continue
+			}
+			if v.Datetime != nil && dayOf(v.Datetime.Native(), time.UTC) != dayOf(mustRFC(odd.Datetime), time.UTC) {
+				continue // (Parse fills in the time of day of the clock)
+			}
+			if odd.State == "" && v.State == "" && v.District == "" && v.Ward == "" {
+				facts = append(facts, "odd-value-is-what-FieldValues.Parse-stores:"+name+":"+string(field.Type()))
+			}
+		}
+	}
+	return facts
+}
+
+func mustRFC(s string) time.Time {
+	t, err := time.Parse(time.RFC3339Nano, s)
+	if err != nil {
+		panic("c15: bad instant " + s)
+	}
+	return t
 }
 
 func single(c *mc.Ctx, desc string) string {
@@ -697,11 +932,35 @@ func guards(r *mc.Result, tier string) []string {
 	for _, s := range []string{"upper", "lower", "implicit"} {
 		need("bool:style:" + s)
 	}
+	need("bool:spelling:bare")
+	for _, k := range []string{"bool", "simplify"} {
+		for _, op := range []string{"and", "or"} {
+			need(k + ":same-keyed-properties:direct-operands-of-one-" + op)
+			need(k + ":same-keyed-properties:operands-of-one-" + op + "-after-flattening")
+		}
+	}
+	for _, cls := range []string{"field.number", "field.datetime", "field.state", "field.district", "field.ward"} {
+		need("cond:stored-value-without-typed-part:" + cls)
+	}
+	for _, cls := range []string{"field.number", "field.datetime", "field.state"} {
+		need("cond:stored-value-without-typed-part:compared-with-a-value:" + cls)
+	}
+	for _, k := range sameKeyedFields {
+		need("cond:field-keyed-like-attribute-or-scheme:" + k)
+	}
+	need("number:stored-value-without-number-part")
+	need("date:stored-value-without-datetime-part")
+	for _, f := range []string{"text-only:number", "text-only:datetime", "foreign-part:number", "foreign-part:datetime"} {
+		need("odd-value-is-what-FieldValues.Parse-stores:" + f)
+	}
+	for _, f := range []string{"member=true", "member=false", "stored-value-without-typed-part", "existence-only-group"} {
+		need("regroup:" + f)
+	}
 	need("bool:result:true")
 	need("bool:result:false")
 	need("simplify:changed-structure")
 	need("simplify:kept-structure")
-	for _, k := range []string{"cond", "number", "date", "bool", "simplify"} {
+	for _, k := range []string{"cond", "number", "date", "bool", "simplify", "regroup"} {
 		if r.Counters["admitted:"+k] == 0 {
 			f = append(f, "no admitted case of kind "+k)
 		}
@@ -720,14 +979,18 @@ func init() {
 		ID:    "C15",
 		Level: "exploration",
 		Rule: "exhaustive products, every case on the real ParseQuery (resolver = real SessionAssets) + EvaluateQuery + flows.Contact read from JSON: " +
-			"(A) every property as written (12 attributes, every URN scheme bare and urns.-prefixed, a field of each of the 6 types bare and fields.-prefixed, unknown names) x 10 operator spellings x 36-37 literals x 22 contacts x 7 environments - the real validator decides which conditions are admitted; no panic, and empty-valued =/!= must agree with presence in the contact model; " +
-			"(B) 3 number properties x 20 query literals x 8 contact values x 6 operators: exactly-one-of <,=,>, <=/>= unions, != negation; " +
-			"(C) 6 zones (thorough: 8, incl. a 30-minute daylight-saving shift) x 3 date formats x 14 query days (ordinary, leap/year ends, 23 h and 25 h days, zones switching at midnight; thorough: every day of 2024-2025) x 4 date properties x up to 8 ways of writing the day x 14 instants around both ends of the day (+-1 ns) x 6 operators: same relations, and each operator must equal the comparison of calendar days in the environment zone; " +
+			"(A) every property as written (12 attributes, every URN scheme bare and urns.-prefixed, a field of each of the 6 types bare and fields.-prefixed, 4 text fields whose key is also an attribute name or a URN scheme - name, language, tickets, twitter - fields.-prefixed, unknown names) x 10 operator spellings x 37-38 literals x 26 contacts x 7 environments - the real validator decides which conditions are admitted; no panic, and empty-valued =/!= must agree with presence in the contact model. " +
+			"The contacts are the empty one, the full one and the full one changed in one respect, among them three whose number, datetime, state, district and ward fields hold a stored value WITHOUT the typed part of the field's type: the text alone (age = 'old', what the real FieldValues.Parse stores - a guard asks it), a text that reads as the type but has no typed part (stored before the field got its type), and a text with the typed part of another type (a date in the number field, a number in the datetime field, a state in the ward field); such a field is absent for queries; " +
+			"(B) 3 number properties x 20 query literals x 11 contact values (8 numbers incl. none, 3 stored values without number part) x 6 operators: no panic; for a present value exactly-one-of <,=,>, <=/>= unions, != negation; " +
+			"(C) 6 zones (thorough: 8, incl. a 30-minute daylight-saving shift) x 3 date formats x 14 query days (ordinary, leap/year ends, 23 h and 25 h days, zones switching at midnight; thorough: every day of 2024-2025) x 4 date properties x up to 8 ways of writing the day x 14 instants around both ends of the day (+-1 ns) x 6 operators: same relations, and each operator must equal the comparison of calendar days in the environment zone; for the datetime field also no value and the 3 stored values without datetime part (no panic); " +
 			"(D) 2 atom sets x 16 contacts realising every truth assignment x every AND/OR tree of depth <= 2 (root arity 2: 36^2, arity 3: 16^3 children) in 3 spellings, result must be the conjunction/disjunction of the operands' own results; every constructed tree of depth <= 3 incl. single-child and same-operator nesting: Simplify() must keep the meaning, and the parsed (simplified) text must evaluate to it. " +
+			"Plus 2 atom sets of SAME-KEYED conditions (attribute language and field language, URN scheme twitter and field twitter: '= value'; attribute name and field name '!= \"\"', scheme twitter and field twitter '= \"\"': each pair differs in the property type only and the 16 contacts give the four atoms independent truth values) x 16 contacts x every tree with a binary root (36^2 per operator, so that both conditions of a pair are direct operands of one AND/OR, operands of one only after flattening of nested groups, or in different groups - guards demand each) in the 3 spellings plus a 4th in which URN conditions are written bare (twitter = bob; the field keeps fields. as the bare key names the attribute/scheme), and every constructed tree of depth <= 2 for Simplify(). The thorough tier gives these sets the full tree families, adds a set with an attribute and a field of the same key but different value types (tickets: number / text) and the != operator, and writes the atoms of every set bare as well. " +
+			"(F) Contact.ReevaluateQueryBasedGroups (6 query based groups over typed and same-keyed fields) on the 26 contacts x 7 environments of (A): no panic, for an active contact membership = the group's query evaluated on the contact, and for the groups made of empty-valued conditions = absence/presence per the contact model combined by AND/OR. " +
 			"distinct_nontrivial counts cases whose query the validator admitted (each case is a distinct tuple by construction).",
 		Assumptions: []string{
 			"bounded alphabets of literals, contacts, zones and days as listed in the rule; the parse and evaluate environments are the same",
 			"absence/presence is not demanded for attributes a contact does not expose to queries (id, group, flow, history, status) nor where the validator forbids set-checks",
+			"a number, datetime or location field is present for queries iff its stored value has the typed part of the field's type (Contact.QueryProperty supplies typed values; 'for a present value exactly one of <, =, > holds' cannot be met by a text): a stored value with the text alone, or with typed parts of other types only, counts as absent",
 			"numeric order itself is not part of the statement: only the stated mutual consistency of the operators is demanded for numbers",
 			"queries can only be evaluated after ParseQuery (ContactQuery has no constructor), so 'simplification never changes the result' is checked structurally on Simplify() over the operands' results and end-to-end on the parsed text",
 		},
